@@ -94,6 +94,19 @@ def rowOfRequest (j : Json) : Except String OptRow := do
       (← (← c.getObjVal? "builtinKind").getNat?))
   | _ => findRow (← getStr j "owner") (← getStr j "dest")
 
+/-- a class-declaration chain of a request: `[{"name": …, "kw": …|null, "attr": …|null}, …]`, the class first -/
+def chainOfRequest (j : Json) : Except String (List BackendClass) := do
+  let arr ← getArr j "chain"
+  arr.toList.mapM (fun e => do
+    let optStr (k : String) : Except String (Option String) :=
+      match e.getObjVal? k with
+      | .ok (Json.str s) => pure (some s)
+      | _ => pure none
+    pure ({ name := ← getStr e "name", kwShort := ← optStr "kw", attrShort := ← optStr "attr" } : BackendClass))
+
+def ruleName : OptShortNameRule → String
+  | .className => "className" | .ownAttr => "ownAttr" | .inheritedAttr => "inheritedAttr" | .other => "other"
+
 def findCmd (name : String) : Except String OptCommand :=
   match optCommands.find? (fun c => c.name == name || c.aliases.contains name) with
   | some c => pure c
@@ -139,6 +152,13 @@ def handleOptions (op : String) (j : Json) : Except String Json := do
   | "options.custom_row" =>
     -- the schema instance for one option of an arbitrary backend (as the model sees it)
     pure (rowJson (← rowOfRequest j))
+  | "options.class_row" =>
+    -- one option of a backend class given by its declaration chain: names derived by the model (`classBackendRow`)
+    let chain ← chainOfRequest j
+    let row := classBackendRow optShortNameRule chain (← getStr j "owner") (← getStr j "dest") (← (← j.getObjVal? "builtinKind").getNat?)
+    pure (Json.mkObj [("rule", Json.str (ruleName optShortNameRule)),
+      ("shortName", match shortNameOf optShortNameRule chain with | some s => Json.str s | none => Json.null),
+      ("row", match row with | some r => rowJson r | none => Json.null)])
   | "options.two_flags" =>
     -- argparse's verdict on two flags of one sub-command
     let cmd ← findCmd (← getStr j "command")
